@@ -129,6 +129,11 @@ func (e *Env) ident(name string) (Val, bool) {
 		if v, ok := e.a.root().ghosts[name]; ok {
 			return v, true
 		}
+		if e.inOld {
+			if v, ok := e.a.params[name]; ok {
+				return v, true
+			}
+		}
 	}
 	// package-level constants and variables
 	if e.pkg != nil {
@@ -449,9 +454,17 @@ func (e *Env) quant(x *SExpr) Val {
 		body = n.evalBool(x.Args[0])
 	}
 	if x.Name == "forall" {
-		return boolVal(fmt.Sprintf("(forall (%s) %s)", strings.Join(binds, " "), implies(guard, body)))
+		inner := implies(guard, body)
+		if pats := patternsFor(inner, names); pats != "" {
+			return boolVal(fmt.Sprintf("(forall (%s) (! %s %s))", strings.Join(binds, " "), inner, pats))
+		}
+		return boolVal(fmt.Sprintf("(forall (%s) %s)", strings.Join(binds, " "), inner))
 	}
-	return boolVal(fmt.Sprintf("(exists (%s) %s)", strings.Join(binds, " "), and(guard, body)))
+	inner := and(guard, body)
+	if pats := patternsFor(inner, names); pats != "" {
+		return boolVal(fmt.Sprintf("(exists (%s) (! %s %s))", strings.Join(binds, " "), inner, pats))
+	}
+	return boolVal(fmt.Sprintf("(exists (%s) %s)", strings.Join(binds, " "), inner))
 }
 
 // ---------------------------------------------------------------- calls
